@@ -52,6 +52,7 @@ type World struct {
 	// Issuers lists every issuer this one provider serves (one entry unless the world is multi-tenant: issuer from
 	// the request host or from the Forwarded header of a reverse proxy). Issuer is the tenant the next request goes to.
 	Issuers    []string
+	authzN     int
 	IssuerMode string
 }
 
@@ -619,7 +620,14 @@ func (p AuthParams) Values() url.Values {
 // Authorize sends the authorization request from a browser; on success the
 // response is a redirect to the login UI carrying the auth request id.
 func (w *World) Authorize(b *Browser, p AuthParams) (resp *Resp, authReqID string) {
-	resp = b.Get(w.Issuer + "/authorize?" + p.Values().Encode())
+	// every fourth authentication request travels as a POST form (OIDC Core 3.1.2.1: both methods must be supported)
+	w.authzN++
+	if w.authzN%4 == 0 {
+		w.O.Probe("authentication-requests-by-post")
+		resp = b.PostForm(w.Issuer+"/authorize", p.Values())
+	} else {
+		resp = b.Get(w.Issuer + "/authorize?" + p.Values().Encode())
+	}
 	if resp.Err == nil && resp.Status == http.StatusFound && strings.HasPrefix(resp.Location, w.Issuer+"/login?") {
 		u, _ := url.Parse(resp.Location)
 		authReqID = u.Query().Get("authRequestID")
